@@ -25,6 +25,7 @@ type PropSpec struct {
 	Outside     []string      `json:"outside_claim"`
 	Stubs       []string      `json:"stubs"`
 	Bounds      string        `json:"bounds"`
+	Kind        string        `json:"kind"`
 }
 
 type KnownFinding struct {
@@ -159,6 +160,9 @@ func cmdCheck(args []string) int {
 	if !ok {
 		fmt.Println("ERROR: property not in registry:", prop)
 		return 2
+	}
+	if ps.Kind == "protocol" {
+		return runProto(prop, tier, seed)
 	}
 	specs := ps.Quick
 	if tier == "thorough" && len(ps.Thorough) > 0 {
